@@ -318,9 +318,10 @@ Result apply_patch(File& out_file, RejectWriter& reject_writer, const std::vecto
 
             switch (reverse_handling) {
             case ReverseHandling::Reverse:
-                // Reverse the remainder of our hunks, and then apply those.
-                for (size_t hunk_to_reverse = 1; hunk_to_reverse < patch.hunks.size(); ++hunk_to_reverse)
-                    reverse(patch.hunks[hunk_to_reverse]);
+                // Reverse the remainder of our hunks along with what the patch does to the file as a whole
+                // (a patch which added the file now removes it), and then apply that.
+                reverse(hunk);
+                reverse(patch);
                 location = reversed_location;
                 break;
             case ReverseHandling::Ignore:
